@@ -619,11 +619,14 @@ package analysis
 // document heaps and the index heaps: reload establishes it (its definition, proved as C11-C14), any write to a
 // document or index heap destroys the knowledge.
 //@ fun synced(s *Spec) bool reads heaps DOC, heaps INDEX
-//@ heaps FCTX = context, newRef, map[string]*newRef, []string
+//@ heaps FCTX = context, newRef, map[string]*newRef, map[string]string, []string
+//@ heaps FREFS = newRef, map[string]*newRef, map[string]string, []string
 
 // well-formedness of the flatten bookkeeping and of index keys (safety invariants, C09)
-//@ fun ctxWF(c *context) bool = c != nil && c.newRefs != nil && c.resolved != nil && (forall k in dom(c.newRefs) :: len(k) >= 1 && c.newRefs[k] != nil && c.newRefs[k].schema != nil && c.newRefs[k].key in dom(c.newRefs) && len(c.newRefs[k].path) >= 1 && (forall i in 0..len(c.newRefs[k].parents) :: len(c.newRefs[k].parents[i]) >= 1))
-//@ fun idxKeysWF(s *Spec) bool = (forall k in dom(s.references.allRefs) :: len(k) >= 1 && s.references.allRefs[k].String() != "") && (forall k in dom(s.references.schemas) :: len(k) >= 1 && s.references.schemas[k].String() != "") && (forall k in dom(s.allSchemas) :: len(k) >= 1)
+//@ ofun ctxRefsWF(m map[string]*newRef) bool = forall k in dom(m) :: len(k) >= 1 && m[k] != nil && m[k].schema != nil && m[k].key in dom(m) && len(m[k].path) >= 1 && strsNE(m[k].parents)
+//@ fun ctxWF(c *context) bool = c != nil && c.newRefs != nil && c.resolved != nil && ctxRefsWF(c.newRefs)
+//@ ofun schKeysWF(m map[string]SchemaRef) bool = forall k in dom(m) :: len(k) >= 1
+//@ fun idxKeysWF(s *Spec) bool = refKeysWF(s.references.allRefs) && refKeysWF(s.references.schemas) && schKeysWF(s.allSchemas)
 //@ fun optsWF(opts *FlattenOpts) bool = opts != nil && opts.Spec != nil && opts.Spec.spec != nil && opts.flattenContext != nil && ctxWF(opts.flattenContext) && strfmt.Default != nil
 
 //@ func (s *Spec) reload()
@@ -1659,3 +1662,182 @@ package analysis
 //@   requires s != nil && s.spec != nil
 //@   modifies heaps INDEX, heap spec.Parameter, heap spec.PathItem
 //@   ensures s.spec == old(s.spec) && idxKeysWF(s)
+
+// ---- the flatten phases (aspect safe): absence of panics under optsWF / idxKeysWF
+
+//@ fun boxedKey(m any, k string) bool reads heap map[string]SchemaRef
+//@ axiom boxedKeyDef: forall m any :: forall k string :: m is map[string]SchemaRef ==> (boxedKey(m, k) == (k in dom(m.(map[string]SchemaRef))))
+//@ fun optsSame(opts *FlattenOpts, sp *Spec, doc *spec.Swagger, c *context) bool = opts.Spec == sp && opts.Spec.spec == doc && opts.flattenContext == c
+
+//@ func updateRefParents(allRefs, r)
+//@   aspect safe
+//@   requires r != nil && refKeysWF(allRefs) && strsNE(r.parents)
+//@   modifies r.parents
+//@   ensures strsNE(r.parents)
+//@   loop 1: invariant strsNE(r.parents)
+
+//@ func stripOAIGenForRef(opts, k, r)
+//@   aspect safe
+//@   requires optsWF(opts) && k in dom(opts.flattenContext.newRefs) && r == opts.flattenContext.newRefs[k] && len(r.parents) >= 1
+//@   modifies heaps DOC, heaps FREFS, opts.flattenContext.warnings
+//@   ensures optsWF(opts)
+//@   loop 1: modifies heaps DOC, heaps FREFS, opts.flattenContext.warnings
+//@   loop 2: modifies heap newRef
+//@   loop 3: modifies nothing
+//@   loop 1: invariant optsWF(opts) && r != nil && r.schema != nil && r.key in dom(opts.flattenContext.newRefs) && len(pr) >= 1 && strsNE(pr)
+//@   loop 2: invariant optsWF(opts) && r != nil && r.schema != nil && r.key in dom(opts.flattenContext.newRefs) && len(pr) >= 1 && strsNE(pr)
+//@   loop 3: invariant optsWF(opts) && r != nil && r.schema != nil && r.key in dom(opts.flattenContext.newRefs) && len(pr) >= 1 && strsNE(pr) && value != nil && strsNE(newParents) && strsNE(value.parents)
+
+//@ func stripOAIGen(opts)
+//@   aspect safe
+//@   requires optsWF(opts) && idxKeysWF(opts.Spec)
+//@   modifies heaps DOC, heaps INDEX, heaps FREFS, opts.flattenContext.warnings
+//@   ensures optsWF(opts) && idxKeysWF(opts.Spec) && optsSame(opts, old(opts.Spec), old(opts.Spec.spec), old(opts.flattenContext))
+//@   loop 1: modifies heap newRef
+//@   loop 2: modifies heaps DOC, heaps FREFS, opts.flattenContext.warnings
+//@   loop 1: invariant optsWF(opts) && idxKeysWF(opts.Spec) && optsSame(opts, old(opts.Spec), old(opts.Spec.spec), old(opts.flattenContext))
+//@   loop 2: invariant optsWF(opts) && idxKeysWF(opts.Spec) && optsSame(opts, old(opts.Spec), old(opts.Spec.spec), old(opts.flattenContext))
+
+//@ func (f *FlattenOpts) croak()
+//@   aspect safe
+//@   requires optsWF(f)
+//@   modifies nothing
+
+//@ func namesForParam(parts, operations)
+//@   aspect safe
+//@   modifies nothing
+//@   ensures result1 >= 0
+//@   loop 1: invariant startIndex >= 0
+//@ func namesForOperation(parts, operations)
+//@   aspect safe
+//@   modifies nothing
+//@   ensures result1 >= 0
+//@ func namesFromKey(parts, aschema, operations)
+//@   aspect safe
+//@   requires aschema != nil
+//@   modifies nothing
+
+//@ func (isn *InlineSchemaNamer) Name(key, schema, aschema)
+//@   aspect safe
+//@   requires isn != nil && isn.Spec != nil && isn.opts != nil && isn.opts.Spec != nil && isn.opts.Spec.spec != nil && len(key) >= 1 && aschema != nil && strfmt.Default != nil
+//@   requires isn.flattenContext != nil ==> ctxWF(isn.flattenContext)
+//@   modifies heaps DOC, heaps FREFS, isn.opts.flattenContext.warnings, heap map[string]*spec.Operation, heap any
+//@   ensures isn.flattenContext != nil ==> ctxWF(isn.flattenContext)
+//@   loop 1: modifies heaps DOC, heaps FREFS, isn.opts.flattenContext.warnings, heap map[string]*spec.Operation, heap any
+//@   loop 2: modifies heaps DOC, isn.opts.flattenContext.warnings
+//@   loop 1: invariant isn.flattenContext != nil ==> ctxWF(isn.flattenContext)
+//@   loop 2: invariant isn.flattenContext != nil ==> ctxWF(isn.flattenContext)
+//@   loop 2: invariant an != nil && idxKeysWF(an) && sch != nil
+
+//@ func flattenAnonPointer(key, v, refsToReplace, namer, opts)
+//@   aspect safe
+//@   requires optsWF(opts) && len(key) >= 1 && refsToReplace != nil && namer != nil && namer.Spec != nil && namer.opts == opts && namer.flattenContext == opts.flattenContext
+//@   modifies heaps DOC, heaps FREFS, opts.flattenContext.warnings, heap map[string]*spec.Operation, heap any, map refsToReplace
+//@   ensures optsWF(opts)
+//@   ensures forall k string :: old(k in dom(refsToReplace)) ==> k in dom(refsToReplace)
+//@   ensures forall k in dom(refsToReplace) :: len(k) >= 1 || old(k in dom(refsToReplace))
+//@   loop 1: modifies opts.flattenContext.warnings
+//@   loop 2: modifies map refsToReplace
+//@   loop 1: invariant optsWF(opts) && an != nil && idxKeysWF(an) && asch != nil && (forall i in 0..len(callers) :: len(callers[i]) >= 1) && (len(callers) > 0 ==> v.Ref.String() != "")
+//@   loop 2: invariant optsWF(opts) && (forall k string :: old(k in dom(refsToReplace)) ==> k in dom(refsToReplace)) && (forall k in dom(refsToReplace) :: len(k) >= 1 || old(k in dom(refsToReplace)))
+
+//@ func namePointers(opts)
+//@   aspect safe
+//@   requires optsWF(opts) && idxKeysWF(opts.Spec)
+//@   modifies heaps DOC, heaps INDEX, heaps FREFS, opts.flattenContext.warnings, heap any
+//@   ensures optsWF(opts) && idxKeysWF(opts.Spec) && optsSame(opts, old(opts.Spec), old(opts.Spec.spec), old(opts.flattenContext))
+//@   loop 1: modifies opts.flattenContext.warnings, map refsToReplace
+//@   loop 2: modifies heaps DOC, heaps FREFS, opts.flattenContext.warnings, heap any, heap map[string]*spec.Operation, map refsToReplace
+//@   loop 1: invariant optsWF(opts) && idxKeysWF(opts.Spec) && optsSame(opts, old(opts.Spec), old(opts.Spec.spec), old(opts.flattenContext)) && refsToReplace != nil && fresh(refsToReplace) && (forall k in dom(refsToReplace) :: len(k) >= 1)
+//@   loop 2: invariant optsWF(opts) && optsSame(opts, old(opts.Spec), old(opts.Spec.spec), old(opts.flattenContext)) && refsToReplace != nil && (forall k in dom(refsToReplace) :: len(k) >= 1) && (forall i in 0..len(depthFirst) :: depthFirst[i] in dom(refsToReplace))
+//@   loop 2: invariant namer != nil && namer.Spec == opts.Spec.spec && namer.opts == opts && namer.flattenContext == opts.flattenContext
+
+//@ func nameInlinedSchemas(opts)
+//@   aspect safe
+//@   requires optsWF(opts) && idxKeysWF(opts.Spec)
+//@   modifies heaps DOC, heaps INDEX, heaps FREFS, opts.flattenContext.warnings, heap any
+//@   ensures optsWF(opts) && idxKeysWF(opts.Spec) && optsSame(opts, old(opts.Spec), old(opts.Spec.spec), old(opts.flattenContext))
+//@   loop 1: modifies heaps DOC, heaps FREFS, opts.flattenContext.warnings, heap any, heap map[string]*spec.Operation
+//@   loop 1: invariant optsWF(opts) && idxKeysWF(opts.Spec) && optsSame(opts, old(opts.Spec), old(opts.Spec.spec), old(opts.flattenContext))
+//@   loop 1: invariant namer != nil && namer.Spec == opts.Spec.spec && namer.opts == opts && namer.flattenContext == opts.flattenContext
+
+//@ func stripPointersAndOAIGen(opts)
+//@   aspect safe
+//@   requires optsWF(opts) && idxKeysWF(opts.Spec)
+//@   modifies heaps DOC, heaps INDEX, heaps FREFS, opts.flattenContext.warnings, heap any
+//@   ensures optsWF(opts) && idxKeysWF(opts.Spec) && optsSame(opts, old(opts.Spec), old(opts.Spec.spec), old(opts.flattenContext))
+//@   loop 1: modifies heaps DOC, heaps INDEX, heaps FREFS, opts.flattenContext.warnings, heap any
+//@   loop 1: invariant optsWF(opts) && idxKeysWF(opts.Spec) && optsSame(opts, old(opts.Spec), old(opts.Spec.spec), old(opts.flattenContext))
+
+//@ func importKnownRef(entry, refStr, newName, opts)
+//@   aspect safe
+//@   requires optsWF(opts) && strsNE(entry.Keys)
+//@   modifies heaps DOC
+//@ func importNewRef(entry, refStr, opts)
+//@   aspect safe
+//@   requires optsWF(opts) && strsNE(entry.Keys) && entry.Ref.String() != ""
+//@   modifies heaps DOC, heaps FREFS, opts.flattenContext.warnings
+//@   ensures optsWF(opts)
+//@   loop 1: modifies heaps DOC
+//@   loop 2: modifies heaps DOC, heaps FREFS, opts.flattenContext.warnings
+//@   loop 1: invariant optsWF(opts) && sch != nil
+//@   loop 2: invariant optsWF(opts) && sch != nil
+
+//@ func importExternalReferences(opts)
+//@   aspect safe
+//@   requires optsWF(opts) && idxKeysWF(opts.Spec)
+//@   modifies heaps DOC, heaps FREFS, opts.flattenContext.warnings
+//@   ensures optsWF(opts)
+//@   loop 1: modifies nothing
+//@   loop 2: modifies heaps DOC, heaps FREFS, opts.flattenContext.warnings
+//@   loop 3: modifies heaps FREFS
+//@   loop 1: invariant forall i in 0..len(sortedRefStr) :: sortedRefStr[i] in dom(groupedRefs)
+//@   loop 2: invariant optsWF(opts) && revIdxWF(groupedRefs) && (forall i in 0..len(sortedRefStr) :: sortedRefStr[i] in dom(groupedRefs))
+//@   loop 3: invariant optsWF(opts)
+
+//@ func importReferences(opts)
+//@   aspect safe
+//@   requires optsWF(opts) && idxKeysWF(opts.Spec)
+//@   modifies heaps DOC, heaps INDEX, heaps FREFS, opts.flattenContext.warnings
+//@   ensures optsWF(opts) && idxKeysWF(opts.Spec) && optsSame(opts, old(opts.Spec), old(opts.Spec.spec), old(opts.flattenContext))
+//@   loop 1: modifies heaps DOC, heaps INDEX, heaps FREFS, opts.flattenContext.warnings
+//@   loop 1: invariant optsWF(opts) && idxKeysWF(opts.Spec) && optsSame(opts, old(opts.Spec), old(opts.Spec.spec), old(opts.flattenContext))
+
+//@ func expand(opts)
+//@   aspect safe
+//@   requires opts != nil && opts.Spec != nil && opts.Spec.spec != nil
+//@   modifies heaps DOC, heaps INDEX
+//@   ensures result == nil ==> idxKeysWF(opts.Spec)
+//@   ensures opts.Spec.spec == old(opts.Spec.spec)
+
+//@ func normalizeRef(opts)
+//@   aspect safe
+//@   requires opts != nil && opts.Spec != nil && opts.Spec.spec != nil && idxKeysWF(opts.Spec)
+//@   modifies heaps DOC, heaps INDEX
+//@   ensures idxKeysWF(opts.Spec) && opts.Spec.spec == old(opts.Spec.spec)
+//@   loop 1: modifies heaps DOC
+//@   loop 1: invariant idxKeysWF(opts.Spec) && opts.Spec.spec == old(opts.Spec.spec)
+
+//@ func removeUnusedShared(opts)
+//@   aspect safe
+//@   requires opts != nil && opts.Spec != nil && opts.Spec.spec != nil
+//@   modifies heaps DOC, heaps INDEX
+//@   ensures idxKeysWF(opts.Spec) && opts.Spec.spec == old(opts.Spec.spec)
+
+//@ func removeUnusedSinglePass(opts)
+//@   aspect safe
+//@   requires opts != nil && opts.Spec != nil && opts.Spec.spec != nil
+//@   modifies heaps DOC, heaps INDEX
+//@   ensures opts.Spec.spec == old(opts.Spec.spec)
+
+//@ func removeUnused(opts)
+//@   aspect safe
+//@   requires opts != nil && opts.Spec != nil && opts.Spec.spec != nil
+//@   modifies heaps DOC, heaps INDEX
+//@   loop 1: modifies heaps DOC, heaps INDEX
+//@   loop 1: invariant opts.Spec.spec == old(opts.Spec.spec)
+
+//@ func Flatten(opts)
+//@   aspect safe
+//@   requires opts.Spec != nil && opts.Spec.spec != nil && strfmt.Default != nil
+//@   modifies heaps DOC, heaps INDEX, heaps FREFS, heap any
